@@ -7,6 +7,8 @@
 //@ props: C14
 //@ expect: postcondition>=8 canary=8
 #include "_unit.h"
+/* two variants = complete case split over the session slot (MAX_CLIENTS == 2): -DXV_CTL_SLOT=n narrows CTL_SESSION of
+ * contracts/ctl.h from "client is slot 0 or slot 1" to "client is slot n", which makes every offset into struct ctl constant */
 void harness(void)
 {
     xv_ghost_havoc();
